@@ -2,7 +2,7 @@
 import ast
 
 from py2lean_types import (Unsupported, Impure, TInt, TBool, TStr, TNone, TRange, TErased, TList, TOpt, TTuple,
-                           TDict, TObj, TAbs, TExc, TUnion, TVar, THet, TBuilder, TEffect, TMaybe, INT, BOOL, STR, NONE, RANGE, ERASED,
+                           TDict, TObj, TAbs, TExc, TUnion, TVar, THet, TBuilder, TEffect, TEffectClass, TMaybe, INT, BOOL, STR, NONE, RANGE, ERASED,
                            resolve, unify, join, coerce, proj, iter_elem)
 from py2lean_expr import src, indent, TyRef, lstr
 
@@ -213,6 +213,16 @@ class CallMixin:
             if fn is not None:
                 return self.call_function(fn, None, e, env, k)
             raise Unsupported("call of " + f.id)
+        if isinstance(f, ast.Attribute) and src(f) in self.reg.abs_ctors:     # Class.constructor(…): hand-written glue
+            lean, ptys, rty, raises = self.reg.abs_ctors[src(f)]
+            self.args_no_kw(e, len(ptys))
+
+            def fin_ac(vs):
+                code = " ".join([lean] + [coerce(c, t, pt) for (c, t), pt in zip(vs, ptys)])
+                if raises:
+                    return self.bind(code, rty, k, "g")
+                return k("(" + code + ")", rty)
+            return self.exprs(list(e.args), env, fin_ac)
         if isinstance(f, ast.Attribute):
             return self.method_call(e, env, k)
         raise Unsupported("call " + src(e))
@@ -459,13 +469,13 @@ class CallMixin:
             codes = [None] * len(params)
             for (i, _a), (c, t) in zip(items, vs):
                 pty = params[i][1]
-                if isinstance(pty, TErased):
+                if isinstance(pty, (TErased, TEffectClass)):
                     codes[i] = None
                     continue
                 codes[i] = coerce(c, t, pty)
             out = []
             for i, (pn, pty) in enumerate(params):
-                if isinstance(pty, TErased):
+                if isinstance(pty, (TErased, TEffectClass)):
                     continue
                 if codes[i] is None:
                     if i in given:
@@ -481,8 +491,8 @@ class CallMixin:
                 out.append(self.observer_for_call(fn, oname, oty, how, e, items, params))
             return self.finish_call(fn, selfcode, out, k)
         # erased arguments are not evaluated
-        evald = [(i, a) for i, a in items if not isinstance(params[i][1], TErased)]
-        skipped = [(i, a) for i, a in items if isinstance(params[i][1], TErased)]
+        evald = [(i, a) for i, a in items if not isinstance(params[i][1], (TErased, TEffectClass))]
+        skipped = [(i, a) for i, a in items if isinstance(params[i][1], (TErased, TEffectClass))]
         items = evald + skipped
 
         def fin2(vs):
